@@ -145,7 +145,7 @@ def coord_mix(rnd, sk, lo, hi, n, inside_bias=0.35):
 
 
 def random_box(rnd, sk, N, mode=None):
-    """box as bit patterns; modes: small, degenerate, wide, extreme, random"""
+    """box as bit patterns; modes: small, degenerate, wide, extreme, open, random"""
     lo, hi = [], []
     mode = mode or rnd.choice(["small", "small", "degenerate", "wide", "extreme", "random", "zero", "tiny"])
     for _ in range(N):
@@ -169,6 +169,14 @@ def random_box(rnd, sk, N, mode=None):
         elif mode == "degenerate":
             a = G.enc(sk, G.small(rnd, sk))
             b = a
+        elif mode == "open":
+            # a box without a bound on one or both sides: the infinities (floats) / the extremes of the type (integers)
+            if G.isf(sk):
+                top, bot = G.enc(sk, G.INF), G.enc(sk, -G.INF)
+            else:
+                bot, top = G.enc(sk, G.IRANGE[sk][0]), G.enc(sk, G.IRANGE[sk][1])
+            mid = G.enc(sk, G.small(rnd, sk))
+            a, b = rnd.choice([(bot, mid), (mid, top), (bot, top), (mid, top), (bot, mid)])
         elif mode == "extreme":
             ex = extremes(sk)
             a, b = rnd.choice(ex), rnd.choice(ex)
